@@ -57,16 +57,19 @@ def correspond(ctx, cases, mods, pool=None, batch=40, prelude=''):
         if own:
             pool.close()
     out = {'evaluations': len(cases), 'spec_mismatch': [], 'model_mismatch': [], 'harness_errors': []}
-    terms_impl = [coqrun.coq_res(a) for a in answers]
     wd = os.path.join(ctx['scratch'], 'coq%d' % ctx.get('mult', 1))
     lists = [('s', 'spec')]
     if ctx.get('model_usable', True):
         lists.append(('m', 'model'))
     bad = {}
+
+    def row(c, a, key):
+        if 'cmp' in c:          # custom comparison: returns ('bool', ok_term, show_term)
+            return c['cmp'](c[key], a)
+        return ('(res_of_opt %s)' % c[key], coqrun.coq_res(a))
     for tag, key in lists:
-        b, diag, errs = coqrun.evaluate([('(res_of_opt %s)' % c[key], t) for c, t in zip(cases, terms_impl)],
-                                        mods if tag == 'm' else [m for m in mods if not m.startswith('Model.') or m in ctx.get('spec_mods', [])] or mods,
-                                        wd, tag=tag)
+        usemods = mods if tag == 'm' else [m for m in mods if not m.startswith('Model.') or m in ctx.get('spec_mods', ())]
+        b, diag, errs = coqrun.evaluate([row(c, a, key) for c, a in zip(cases, answers)], usemods or mods, wd, tag=tag)
         out['harness_errors'] += errs
         bad[tag] = (set(b), diag)
     for i, c in enumerate(cases):
